@@ -98,22 +98,15 @@ impl FromStr for MatchResult {
 
     fn from_str(s: &str) -> Result<Self, Self::Err> {
         fn find_next_field(s: &str, start_pos: usize) -> Result<(&str, usize), PriceLevelError> {
-            let mut pos = start_pos;
-
-            while pos < s.len() {
-                if s[pos..].starts_with(';') {
-                    let value = &s[start_pos..pos];
-                    return Ok((value, pos + 1));
+            // `find` only ever yields char boundaries, so the slices below cannot panic on
+            // multi-byte characters inside a value.
+            match s[start_pos..].find(';') {
+                Some(idx) => {
+                    let pos = start_pos + idx;
+                    Ok((&s[start_pos..pos], pos + 1))
                 }
-                pos += 1;
+                None => Ok((&s[start_pos..], s.len())),
             }
-
-            if pos == s.len() {
-                let value = &s[start_pos..pos];
-                return Ok((value, pos));
-            }
-
-            Err(PriceLevelError::InvalidFormat)
         }
         if !s.starts_with("MatchResult:") {
             return Err(PriceLevelError::InvalidFormat);
@@ -160,13 +153,13 @@ impl FromStr for MatchResult {
                     let mut i = pos + "Transactions:[".len();
 
                     while i < s.len() && bracket_depth > 0 {
-                        if s[i..].starts_with(']') {
+                        if s.as_bytes()[i] == b']' {
                             bracket_depth -= 1;
                             if bracket_depth == 0 {
                                 break;
                             }
                             i += 1;
-                        } else if s[i..].starts_with('[') {
+                        } else if s.as_bytes()[i] == b'[' {
                             bracket_depth += 1;
                             i += 1;
                         } else {
@@ -195,13 +188,13 @@ impl FromStr for MatchResult {
                     let mut i = pos + 1;
 
                     while i < s.len() && bracket_depth > 0 {
-                        if s[i..].starts_with(']') {
+                        if s.as_bytes()[i] == b']' {
                             bracket_depth -= 1;
                             if bracket_depth == 0 {
                                 break;
                             }
                             i += 1;
-                        } else if s[i..].starts_with('[') {
+                        } else if s.as_bytes()[i] == b'[' {
                             bracket_depth += 1;
                             i += 1;
                         } else {
